@@ -20,6 +20,8 @@ func init() {
 }
 
 func runC06(r *Run, p *Prog) {
+	// Q11: the token character sets decide which names are well-formed
+	siblingRules(r, p, "C05", []string{"K8"}, "Q11")
 	m, why := buildIDLModel(p)
 	if m == nil {
 		r.Unresolved("Q1", why)
